@@ -82,6 +82,10 @@ register(PropertySpec(
              "what a node has handed on is remembered per parent (a node used under two parents owes each its rows)"),
         Rule("SHARED-TAIL", _lazy("lazy", "rule_shared_tail"), 5,
              "two result iterators over one variable alive at once: each is handed what the other pulled from the shared one-shot domain (no qualifying object is lost)"),
+        Rule("NEG-TRUTH", _lazy("negation", "rule_neg_truth"), 16,
+             "the truth a mapping decides from a value (fresh or bound already) follows one table"),
+        Rule("EVAL-PARENT-SET", _lazy("binding", "rule_eval_parent_set"), 9,
+             "operators tell a shareable operand which of its parents evaluates it"),
     ],
     explanation="Decides the clause 'the condition vocabulary denotes the ordinary Python operator': the node each "
                 "public comparison/membership entry constructs (arguments mapped to dataclass fields through the MRO "
@@ -280,6 +284,8 @@ register(PropertySpec(
              "the first evaluation (computed) and later ones (replayed) hand on the same rows: a replay goes through the duplicate suppression the operand applies to itself"),
         Rule("INFER-MARK", _lazy("ruletree", "rule_infer_mark_transient"), 1,
              "the inferred mark of a shared variable is given by evaluation code and taken back, never at construction time"),
+        Rule("REG-LIVE", _lazy("registry", "rule_reg_live_conclusions"), 1,
+             "the per-evaluation reset reaches variables that only a conclusion mentions"),
     ],
     explanation="History independence is absence of residue on the shared expression nodes. Decided: where residue is "
                 "written (discovered mechanically from dataclass fields and mutation sites reachable from evaluation "
